@@ -264,7 +264,7 @@ func checkC04(c *ForeignCase) *Outcome {
 	})
 }
 
-var c04Fixtures = []string{"flat24", "nest", "tiny", "rep3"}
+var c04Fixtures = []string{"flat24", "nest", "tiny", "rep3", "reqopt"}
 
 func TestC04(t *testing.T) { rapid.Check(t, propC04) }
 
